@@ -339,6 +339,8 @@ PROPS = {
                    "JobShopInstance.max_duration_per_job", "JobShopInstance.max_duration_per_machine",
                    "JobShopInstance.job_durations", "JobShopInstance.total_duration",
                    "JobShopInstance.from_matrices", "JobShopInstance.from_matrices$flexible",
+                   "JobShopInstance.to_dict", "Schedule.to_dict", "lemma_matrices_round_trip",
+                   "lemma_matrices_round_trip_flexible",
                    "Dispatcher.dispatch", "Dispatcher.reset", "DispatchingRuleSolver.solve"],
         lemmas=[],
         tierb=True,
@@ -359,9 +361,16 @@ PROPS = {
                      "the dispatching-rule solver loop have frames that exclude every field and list of the instance",
                      "proved: JobShopInstance.from_matrices (machine ids or lists of machine ids) builds one job per row and one "
                      "NEW operation per entry with the duration and the machine(s) of that entry, numbered, for ragged matrices too "
-                     "(together with durations_matrix / machines_matrix this is the matrices round trip, composed by the bounded run)",
-                     "bounded only: numpy arrays (padded matrices), operations_by_machine, machine_loads, to_dict / "
-                     "from_taillard_file / JSON round trips, Schedule.to_dict / from_dict / "
+                     "; to_dict() of an instance holds its name, metadata and the two matrices as the views compute them; "
+                     "Schedule.to_dict() holds, per machine, the job ids of its operations in order; the round trip "
+                     "from_matrices(I.durations_matrix, I.machines_matrix) rebuilds the same number of jobs and operations with "
+                     "the same durations and machines, for non-flexible instances (matrix of machine ids) and for flexible ones "
+                     "(matrix of machine-id lists) (ghost lemmas contracts/ghost_src.py::lemma_matrices_round_trip[_flexible]: the "
+                     "three contracts executed one after the other; the lemma names which of from_matrices' two contracts -- one per "
+                     "argument shape -- the call goes through, and has to establish that contract's pre-condition)",
+                     "bounded only: numpy arrays (padded matrices), operations_by_machine, machine_loads, the round trip through JSON "
+                     "text / "
+                     "from_taillard_file, Schedule.from_dict / "
                      "from_job_sequences (acceptance iff acyclic, no hang), immutability under observers, graph builders and "
                      "environments"],
     ),
